@@ -794,7 +794,7 @@ impl Check for C06 {
         "exploration"
     }
     fn rule(&self) -> String {
-        "each case fixes a configuration (n in {2,3}) and executes it N times per input value (N=200 quick, 2000 thorough; fresh coins and schedule seed each) with all input bits 0 resp. 1; from the transcript alone, for every input wire: b = decoded 'masked inputs' bit xor the bits the other parties sent to the owner in 'wire shares'; the count of b=1 must lie within 6.5 sigma of N/2 for input 0 and input 1 alike. Canary cases: a party with 128 random input bits, its outgoing traffic scanned for the run as 128 bool bytes, as 16 packed bytes in both bit orders and as a run in the decoded bool stream. All probed global keys, and all own-mask vectors of >= 64 bits, must be pairwise distinct over all runs and parties. evaluations = simulated runs; distinct = (configuration, run) coins".into()
+        "each case fixes a configuration (n in {2,3}) and executes it N times per input value (N=200 quick, 2000 thorough; fresh coins and schedule seed each) with all input bits 0 resp. 1; from the transcript alone, for every input wire: b = decoded 'masked inputs' bit xor the bits the other parties sent to the owner in 'wire shares'; the count of b=1 must lie within 6.5 sigma of N/2 for input 0 and input 1 alike. Canary cases: a party with 128 random input bits, its outgoing traffic scanned for the run as 128 bool bytes, as 16 packed bytes in both bit orders and as a run in the decoded bool stream. Wide configurations (129 input wires) run under the balance test too, and there the vector of a party's own shares of the masks of its own input wires must not appear in its traffic. All probed global keys, and all own-mask vectors of >= 64 bits, must be pairwise distinct over all runs and parties. evaluations = simulated runs; distinct = (configuration, run) coins".into()
     }
     fn assumptions(&self) -> Vec<String> {
         vec![
